@@ -72,7 +72,12 @@ def gen_case(rng, tier, idx):
         if not (p > 0) or p > 1e6 * max(1.0, tick):
             p = rng.uniform(0.01, 1000.0)
         prices.append([p, rng.random() < 0.5])
-    return {"drive": "direct", "tick": tick, "prices": prices}
+    case = {"drive": "direct", "tick": tick, "prices": prices}
+    if rng.random() < 0.15:
+        case["retick"] = rng.choice([t for t in TICKS if t != tick])
+        half = len(prices) // 2
+        case["prices"] = prices[:half] + prices[:half]
+    return case
 
 
 def sample_of(case):
@@ -169,6 +174,8 @@ def run_case(case, res):
     seen = set()
     import numpy as np
 
+    retick = case.get("retick")
+
     for j, (p, is_buy) in enumerate(case["prices"]):
         flag = is_buy
         if j % 9 == 4:
@@ -191,3 +198,8 @@ def run_case(case, res):
             seen.add(key)
             nontrivial = (not on_grid)
             res.seen(key, nontrivial)
+        if retick and j == len(case["prices"]) // 2:
+            # the tick size of a live market is changed; the same prices are then submitted again
+            m.tick_size = retick
+            tick = retick
+            res.count("class/tick_size_changed_on_live_market")
